@@ -29,6 +29,13 @@ def acExecute : Acct := 4
 def acRelayer : Acct := 5
 def acForwarder : Acct := 10   -- a batching contract: one transaction, several `crossChainCall`s
 def acEmitter : Acct := 11     -- any OTHER contract: it can emit logs shaped like the packet contract's `PacketSent(bytes)`
+def acSwitch : Acct := 12      -- a sender's callback contract that reverts while its switch is on
+
+/-- token amounts, allowances and supplies are `uint256`: checked arithmetic reverts at 2^256 -/
+def U256 : Nat := 2 ^ 256
+
+/-- packet sequences are `uint64`: the counter can not pass 2^64-1, so the last sequence that can be sent is 2^64-2 -/
+def U64 : Nat := 2 ^ 64
 
 def upd1 {α} (f : Nat → α) (k : Nat) (v : α) : Nat → α := fun x => if x = k then v else f x
 def upd2 {α} (f : Nat → Nat → α) (a b : Nat) (v : α) : Nat → Nat → α :=
@@ -63,7 +70,8 @@ structure Packet where
   sender : Acct
   transfer : Option Transfer
   call : Call
-  callback : Bool          -- callback address = the agent contract (the only callback contract modelled)
+  callback : Bool          -- callback address = the agent contract
+  cbSwitch : Bool := false -- callback address = the switch contract `acSwitch` (a user's own callback contract)
   deriving DecidableEq, Repr
 
 /-- Static configuration of a chain (governance: `bindToken`, client creation). -/
@@ -72,6 +80,7 @@ structure Cfg where
   trace : ChainId → Token → Option Token     -- (origin chain, origin token) ↦ bound token here (`bindingTraces`)
   ori : Token → ChainId → Option Token       -- (bound token here, origin chain) ↦ origin token (`bindings[..].oriToken`)
   scale : Token → ChainId → Nat              -- (bound token here, origin chain) ↦ `bindings[..].scale`: 1 origin unit = 10^scale bound units
+  seq0 : ChainId → Nat := fun _ => 1         -- first send sequence of the path towards a chain (1 unless the counter was planted, e.g. by an imported genesis)
 
 /-- Everything an EVM revert rolls back. `credited` / `refunded` are ghost counters living next to the token
 effects they count (so they share their fate under every rollback). -/
@@ -116,6 +125,7 @@ travels as `msg.value` and needs none). -/
 def spend (e : Evm) (t : Token) (a : Acct) (n : Nat) : Option Evm :=
   if t = 0 then some e
   else if e.allow t a < n then none
+  else if e.allow t a = U256 - 1 then some e                  -- `type(uint256).max` is an unlimited allowance: not consumed
   else some { e with allow := upd2 e.allow t a (e.allow t a - n) }
 
 /-- `spend` then `debit`: what `transferFrom(a, …, n)` / `burnFrom(a, n)` needs. -/
@@ -133,6 +143,7 @@ structure SendArgs where
   feeToken : Token
   feeAmount : Nat
   callback : Bool
+  cbSwitch : Bool := false
   deriving DecidableEq, Repr
 
 /-- Contract part of `endpoint.crossChainCall` + `packet.sendPacket` (all-or-nothing inside the EVM). -/
@@ -146,7 +157,8 @@ def sendEvm (cfg : Cfg) (self : ChainId) (seq : Nat) (e : Evm) (sender : Acct) (
       let e := credit e a.feeToken acPacket a.feeAmount
       let e := { e with fee := upd2 e.fee a.dst seq (a.feeToken, a.feeAmount) }
       let pk (tr : Option Transfer) : Packet :=
-        { src := self, dst := a.dst, seq := seq, sender := sender, transfer := tr, call := a.call, callback := a.callback }
+        { src := self, dst := a.dst, seq := seq, sender := sender, transfer := tr, call := a.call, callback := a.callback,
+          cbSwitch := a.cbSwitch }
       if a.amount = 0 then some (e, pk none)
       else
         match cfg.ori a.token a.dst with
@@ -173,7 +185,8 @@ def sendEvm (cfg : Cfg) (self : ChainId) (seq : Nat) (e : Evm) (sender : Acct) (
 
 /-- Post-transaction hook of the packet keeper: `Keeper.SendPacket` for the `PacketSent` event. -/
 def sendKeeper (cfg : Cfg) (c : Chain) (p : Packet) : Option Chain :=
-  if cfg.clients p.dst ∧ p.seq = c.nextSeq p.dst then        -- client exists; packet sequence = next send sequence
+  -- client exists; packet sequence = next send sequence; the incremented counter fits a uint64 (`setSequence` reverts otherwise)
+  if cfg.clients p.dst ∧ p.seq = c.nextSeq p.dst ∧ p.seq + 1 < U64 then
     some { c with nextSeq := upd1 c.nextSeq p.dst (p.seq + 1), commits := p :: c.commits }
   else none
 
@@ -264,6 +277,8 @@ def recvTransfer (cfg : Cfg) (e : Evm) (p : Packet) : Option (Evm × Token × Na
       match cfg.trace p.src t.token with
       | none => none                                            -- "token not bound"
       | some v =>
+        -- checked uint256 arithmetic: amount·10^scale and the new total supply must fit (the revert is caught: code 2)
+        if U256 ≤ e.supply v + t.amount * 10 ^ cfg.scale v p.src then none else
         let e := credit e v t.receiver (t.amount * 10 ^ cfg.scale v p.src)
         some ({ e with supply := upd1 e.supply v (e.supply v + t.amount * 10 ^ cfg.scale v p.src),
                        bindAmt := upd2 e.bindAmt v p.src (e.bindAmt v p.src + t.amount * 10 ^ cfg.scale v p.src),
@@ -350,6 +365,8 @@ def refund (cfg : Cfg) (e : Evm) (p : Packet) : Option Evm :=
     match t.ori with
     | some _ =>
       -- bound token that had been burnt: mint back amount·10^scale, bindings.amount += amount·10^scale
+      -- (checked uint256 arithmetic: the new total supply must fit, else the refund — and with it the message — fails)
+      if U256 ≤ e.supply t.token + t.amount * 10 ^ cfg.scale t.token p.dst then none else
       let e := credit e t.token p.sender (t.amount * 10 ^ cfg.scale t.token p.dst)
       some { e with supply := upd1 e.supply t.token (e.supply t.token + t.amount * 10 ^ cfg.scale t.token p.dst),
                     bindAmt := upd2 e.bindAmt t.token p.dst (e.bindAmt t.token p.dst + t.amount * 10 ^ cfg.scale t.token p.dst),
@@ -405,6 +422,12 @@ def ackHandler (cfg : Cfg) (self : ChainId) (c : Chain) (p : Packet) (code : Nat
         | none => none
         | some e3 => some { c with evm := e3, commits := c.commits.erase p }
 
+/-- `MsgAcknowledgement` as a whole: `OnAcknowledgePacket` also calls the packet's callback contract — for a success code
+and for an error code alike. If that is the switch contract and its switch is on (`cbFail`), the call reverts and with it
+the whole message: nothing is consumed, the same acknowledgement can be delivered again later. -/
+def ackMsg (cfg : Cfg) (self : ChainId) (c : Chain) (p : Packet) (code : Nat) (rel : Option Acct) (cbFail : Bool) : Option Chain :=
+  if p.cbSwitch ∧ cbFail then none else ackHandler cfg self c p code rel
+
 /-- One entry of a chain's relayer registry (`RegisterRelayers` stores one per relayer address and REPLACES it):
 the relayer's account on this chain and, per counterparty chain, the name ("tag") it goes by there. `rank` is the
 position of the entry in the store's iteration order (byte order of the bech32 address; computed by the harness). -/
@@ -437,6 +460,7 @@ structure World where
   chains : ChainId → Chain
   reg : ChainId → Registry                       -- relayer registry of every chain (governance; changes at any time)
   ackTag : ChainId → ChainId → Nat → Nat         -- (dst, src, seq) ↦ relayer name written into the acknowledgement on dst
+  cbFail : ChainId → Bool := fun _ => false      -- per chain: the switch of the callback contract `acSwitch` (on = its calls revert)
 
 def World.set (w : World) (i : ChainId) (c : Chain) : World := { w with chains := upd1 w.chains i c }
 
@@ -452,6 +476,9 @@ inductive Step
   | transfer (c : ChainId) (t : Token) (src dst : Acct) (n : Nat)  -- an ordinary token / coin transfer between accounts
   | batch (c : ChainId) (sender : Acct) (strict : Bool) (legs : List Leg)   -- one transaction, several crossChainCalls
   | register (c : ChainId) (addr : Acct) (rank : Nat) (chains : List (ChainId × Nat))   -- RegisterRelayers on chain c
+  | cbset (c : ChainId) (on : Bool)          -- the owner of the callback contract on chain c flips its switch
+  | restart (c : ChainId) (wholeApp : Bool)  -- chain c is restarted from its exported state (xibc module only / the whole application)
+  | discard (s : Step)                       -- `s` executed on a context that is dropped (Simulate, CheckTx, a gov dry run, a failed multi-message tx)
   deriving Repr
 
 /-- One step; a rejected message leaves the world unchanged. -/
@@ -477,11 +504,12 @@ def step (fixed : Bool) (w : World) : Step → World
       match (w.chains dst).acks src seq with
       | none => w
       | some code =>
-        match ackHandler (w.cfg src) src (w.chains src) p code ((w.reg src).onTeleport dst (w.ackTag dst src seq)) with
+        match ackMsg (w.cfg src) src (w.chains src) p code ((w.reg src).onTeleport dst (w.ackTag dst src seq)) (w.cbFail src) with
         | none => w
         | some c => w.set src c
   | .mint i t who n =>
     let c := w.chains i
+    if U256 ≤ c.evm.supply t + n then w else      -- ERC-20 `_mint`: the total supply is a checked uint256
     w.set i { c with evm := { credit c.evm t who n with supply := upd1 c.evm.supply t (c.evm.supply t + n) } }
   | .approve i t who n =>
     let c := w.chains i
@@ -501,6 +529,14 @@ def step (fixed : Bool) (w : World) : Step → World
 
   | .register i addr rank chains =>
     { w with reg := upd1 w.reg i ((w.reg i).put { addr := addr, rank := rank, chains := chains }) }
+
+  | .cbset i on => { w with cbFail := upd1 w.cbFail i on }
+
+  -- an export → import restart loses and changes nothing the model talks about
+  | .restart _ _ => w
+
+  -- whatever ran on a dropped context left no trace
+  | .discard _ => w
 
 def run (fixed : Bool) (w : World) (steps : List Step) : World := steps.foldl (step fixed) w
 
